@@ -27,7 +27,7 @@ from .core import (
 )
 from .findings import Findings
 
-DEFAULT_BUDGET = {"quick": 150.0, "thorough": 3600.0}
+DEFAULT_BUDGET = {"quick": 300.0, "thorough": 3600.0}  # quick: about twice what the slowest check needs on an idle 16-core machine
 SHRINK_BUDGET = {"quick": 45.0, "thorough": 280.0}
 
 
